@@ -25,7 +25,11 @@ LEVEL_TEXT = ("Theorems in coq/Props/C17.v. (1) memstore and cidlink.Memory, mod
               "definitions gotrans regenerates from sharding.go on every run; they are proved total (C17_shard_total). "
               "(3) The code as it stands never applies escapingFunc and treats commit(\"\") as abort-with-success: the faithful "
               "model REFUTES containment, injectivity and refinement (C17_*_refuted, by computation), and the same inputs "
-              "fail on the real code (KNOWN-FINDING lines). No bound on history length or key size in the theorems.")
+              "fail on the real code (KNOWN-FINDING lines). No bound on history length or key size in the theorems. "
+              "Streams kept OPEN across other operations (open / write / commit as separate steps, 2-3 at a time) are in the models, "
+              "in C17_refines for the in-memory stores and in C17_fs_contained (proved); for fsstore C17_refines_fs is proved for "
+              "atomic operations only (premise atomic_op) and the statement with open streams is the unproved Definition "
+              "C17_refines_fs_streams_full (covered by the correspondence run and, as interleaved writers, by C18_atomic).")
 LEVEL_NOTE = ("cidlink.Memory keys by multihash by documented design: its specification is keyed by the projection cid_hash, "
               "this is not counted as aliasing. The fs refinement covers keys whose escaped form fits NAME_MAX (255): longer "
               "keys make Put fail with ENAMETOOLONG (modelled, observed; an error, not a wrong answer). The shape of the escaping "
@@ -39,8 +43,11 @@ TRUSTED = ["POSIX path resolution and package os (OpenFile O_EXCL, Rename = Lsta
            "a CUSTOM escaping function has the shape esc_ok (premise of the general fs theorems; for the default base32 it is proved)",
            "go-cid Cid.Hash() (multihash projection used by cidlink.Memory): modelled by cid_hash over Codec/Cid.v uvarint; tied by correspondence on real CIDs",
            "Go strings are shorter than 2^63 bytes (key_len_ok); fewer than 2^254 staging names are drawn by the model (C17_refines_fs)"]
-RULE = ("histories of 10-45 operations (new slice, overwrite slice, put, put-stream, put-vec, get, get-stream, peek, has) over 2-7 keys "
-        "drawn from real CID binaries (v0/v1, several codecs and hash functions, same multihash under different CIDs), ~55 hostile "
+RULE = ("histories of 10-60 operations (new slice, overwrite slice, put, put-stream, put-vec, get, get-stream, peek, has; in 45% of the "
+        "histories 2-3 streams open at the same time with interleaved writes, commits in any order and aborts) over 2-7 keys "
+        "drawn from real CID binaries (v0/v1, several codecs and hash functions, same multihash under different CIDs; links that share "
+        "their DIGEST bytes but not the hash function: sha2-256 of X vs the identity CID of those 32 bytes vs the same bytes labelled "
+        "sha3-256 / blake2b-256 / keccak-256), ~55 hostile "
         "keys (empty, '.', '..', '/', a/b vs a//b, NUL, 255/256/300 bytes, case variants, names of store directories, keys pointing "
         "into .temp; pairs of 159-300 byte keys sharing a prefix of >= 158 bytes) and random bytes; contents include the EMPTY block "
         "and one-byte blocks (about a quarter of the keys) through every put form; for memstore, cidlink.Memory and fsstore with each sharding function; 15% of histories write "
